@@ -942,6 +942,8 @@ def finish(c):
         for st in c["steps"]:
             finish(st)
         return c
+    if mode == "scribble":
+        return c
     fix_tags(c["type"])
     if mode == "parse":
         rq = c["req"]
@@ -1773,6 +1775,31 @@ def zeros(rng):
     return cases
 
 
+EMPTY_MAP_PRIVATE = [False]       # set by regen(): no package-level map is handed out as a field value (F31)
+
+
+def scribbles(rng):
+    """the caller writes into a map[string]any field of a struct it got back; later calls that
+    leave a struct / map value out must not see those entries"""
+    cases = []
+    if not EMPTY_MAP_PRIVATE[0]:
+        return cases
+    i = P("int")
+    for k in range(12):
+        a, b = fresh("a"), fresh("b")
+        tag = ["json", "key", "form", "json"][k % 4]
+        mode = {"json": rng.choice(["json", "httpx-json", "jsonmap"]), "key": "key", "form": rng.choice(["form", "httpx-form"])}[tag]
+        inner = St(F(a, i, O(opt=True, range=R("[1:5]"))), F(b, P("string"), O(opt=True)))
+        t = St(F(fresh("in"), Ptr(inner) if k % 3 == 0 else inner), F(fresh("m"), Mp(i)))
+        before = {"mode": mode, "type": copy.deepcopy(t), "doc": dobj([])}
+        scrib = {"mode": "scribble", "tag": tag, "entries": dobj([(a, dn(rng.choice(["3", "9"])) if tag != "form" else ds("9")),
+                                                                   (b, ds("leak"))])}
+        after = {"mode": mode, "type": copy.deepcopy(t), "doc": dobj([])}
+        steps = [before, scrib, after] if k % 2 else [scrib, after]
+        cases.append(finish({"mode": "seq", "procs1": False, "steps": steps, "intent": "scribble"}))
+    return cases
+
+
 DEFAULT_MEMO_FIXED = [False]      # set by regen(): core/mapping keys its memo of slice defaults by (reading, text)
 
 
@@ -2076,6 +2103,8 @@ class C08(Property):
         global MAX_FORM_VALUES, MAX_BODY, PARSE_ORDER
         c, notes = c08consts.regen()
         DEFAULT_MEMO_FIXED[0] = bool(c["default_memo_per_reading"])
+        import os
+        EMPTY_MAP_PRIVATE[0] = bool(c["empty_map_private"]) or os.environ.get("C08_FORCE_SCRIBBLE") == "1"
         MAX_FORM_VALUES = c["maxFormParamCount"]
         MAX_BODY = c["maxBodyLen"]
         order = [{"ParsePath": "path", "ParseForm": "form", "ParseHeaders": "header", "ParseJsonBody": "json"}[x]
@@ -2150,6 +2179,7 @@ class C08(Property):
         big = tier == "thorough"
         _SALT[0] = 0
         cases = crosskind(rng, 40 if not big else 400)
+        cases += scribbles(rng)
         cases += sequences(rng, 120 if not big else 1200)
         cases += parse_cases(rng, 250 if not big else 3000)
         cases += self_validating(rng)
@@ -2175,6 +2205,8 @@ class C08(Property):
             if c["mode"] == "seq":
                 return {"id": i, "mode": "seq", "procs1": bool(c.get("procs1")),
                         "steps": [wire(st, j) for j, st in enumerate(c["steps"])]}
+            if c["mode"] == "scribble":
+                return {"id": i, "mode": "scribble", "type": St(), "ctype": c["tag"], "entries": c["entries"]}
             w = {"id": i, "mode": c["mode"], "type": c["type"], "doc": c.get("doc"), "raw": c.get("raw"),
                  "direct": bool(c.get("direct")), "pad": int(c.get("pad") or 0), "repeat": c.get("repeat"),
                  "validator": c.get("validator"), "ctype": c.get("ctype"), "static": c.get("static") or ""}
@@ -2216,7 +2248,8 @@ class C08(Property):
 
     def coq_case(self, case, obs):
         if case["mode"] == "seq":
-            return clist([self.coq_step(st, o) for st, o in zip(case["steps"], obs["steps"])])
+            # what the caller does with its own structs between two calls is not a call
+            return clist([self.coq_step(st, o) for st, o in zip(case["steps"], obs["steps"]) if st["mode"] != "scribble"])
         return clist([self.coq_step(case, obs)])
 
     def coq_step(self, case, obs):
